@@ -30,7 +30,9 @@ Definition fb2v (b : bool) : float := if b then 1%float else 0%float.
 
 Definition op_drops (code : N) : bool := N.ltb code 4.
 
-Definition feqb (a b : float) : bool := PrimFloat.eqb a b || (PrimFloat.is_nan a && PrimFloat.is_nan b).
+(* equal as IEEE values and, for zeros, of the same sign (1/0 = +inf, 1/(-0) = -inf); two NaNs are equal *)
+Definition feqb (a b : float) : bool :=
+  (PrimFloat.eqb a b && PrimFloat.eqb (1 / a) (1 / b)) || (PrimFloat.is_nan a && PrimFloat.is_nan b).
 
 (* label sets are compared as sets: sort by name code *)
 Fixpoint insert_kv (kv : N * N) (l : labels) : labels :=
